@@ -40,6 +40,9 @@ PURE = {
     'Py_VISIT', 'PyObject_GC_UnTrack', 'PyType_HasFeature',
     'PyTuple_Pack', 'PyLong_FromLong', 'PyErr_Format', 'PyDict_Clear',
     'PyObject_GC_Track', 'PyType_IsSubtype', 'PyObject_ClearWeakRefs',
+    'PyBool_FromLong', 'PyList_New', 'PyModuleDef_Init', 'PyModule_AddObject',
+    'PyType_FromModuleAndSpec', 'PyLong_AsLong', 'PyTuple_Size', 'PyDict_Size',
+    'PyList_Append', 'PyErr_NoMemory', 'PyErr_BadInternalCall',
 }
 NEW = {
     'PySequence_Tuple', 'PySequence_List', 'PyObject_CallMethodObjArgs',
@@ -48,6 +51,7 @@ NEW = {
     'PyTuple_GetSlice', 'Py_BuildValue', 'PyObject_GetItem',
     'PyObject_RichCompare', 'PyUnicode_FromString', 'PyTuple_Pack',
     'PyLong_FromLong', 'PyImport_ImportModule', 'PyObject_Str',
+    'PyBool_FromLong', 'PyList_New', 'PyType_FromModuleAndSpec',
 }
 BORROWED = {'PyDict_GetItem', 'PyTuple_GET_ITEM', 'PyDict_GetItemString',
             'PyDict_GetItemWithError'}
@@ -440,6 +444,7 @@ class Balance:
         f = self.u.func(fname)
         g = ccfg(f)
         paths = g.paths()
+        npaths = 0
         findings = {}
         ptr_locals = set()
         for n in g.nodes:
@@ -463,8 +468,13 @@ class Balance:
             none_alias = set()
             self.alias = {}
             self.held = set()
+            self.ints = {}
+            self.nonnull = set()
             for p in params:
                 st[p] = 'borrowed'
+            if not self._feasible(path):
+                continue
+            npaths += 1
             for i, (n, lab) in enumerate(path):
                 e = n.e
                 if e is None:
@@ -517,7 +527,66 @@ class Balance:
                         if s == 'owned':
                             note('leak', var, path[:i + 1], n,
                                  'owned reference not released on this exit')
-        return list(findings.values()), len(paths)
+        return list(findings.values()), npaths
+
+    def _feasible(self, path):
+        """False when the path contradicts itself on (a) an int local holding
+        a known constant, or (b) the NULL-ness of a pointer local that was
+        tested (or set to NULL / Py_CLEARed) and not rebound since."""
+        ints, null = {}, {}
+        for n, lab in path:
+            e = n.e
+            if e is None:
+                continue
+            if n.kind == 'test':
+                if lab not in ('T', 'F'):
+                    continue
+                t, truth = e, lab == 'T'
+                while t.k == 'un' and t.a[0] == '!':
+                    t, truth = t.a[1], not truth
+                if t.k == 'var' and t.a[0] in ints:
+                    if (ints[t.a[0]] != 0) != truth:
+                        return False
+                    continue
+                if t.k == 'bin' and t.a[0] in ('<', '>', '<=', '>=', '==', '!=') and \
+                        t.a[1] is not None and t.a[1].k == 'var' and t.a[1].a[0] in ints \
+                        and t.a[2] is not None and t.a[2].k in ('const', 'un'):
+                    c = t.a[2]
+                    val = None
+                    if c.k == 'const' and isinstance(c.a[0], int):
+                        val = c.a[0]
+                    elif c.k == 'un' and c.a[0] == '-' and c.a[1].k == 'const':
+                        val = -c.a[1].a[0]
+                    if val is not None:
+                        x = ints[t.a[1].a[0]]
+                        r = {'<': x < val, '>': x > val, '<=': x <= val, '>=': x >= val,
+                             '==': x == val, '!=': x != val}[t.a[0]]
+                        if r != truth:
+                            return False
+                    continue
+                var = None
+                if t.k == 'var':
+                    var, isnull = t.a[0], not truth
+                elif t.k == 'bin' and t.a[0] in ('==', '!=') and t.a[1] is not None and \
+                        t.a[1].k == 'var' and t.a[2] is not None and t.a[2].k == 'null':
+                    var = t.a[1].a[0]
+                    isnull = truth if t.a[0] == '==' else not truth
+                if var is not None:
+                    if var in null and null[var] != isnull:
+                        return False
+                    null[var] = isnull
+                continue
+            for var, val in c_assigned(n).items():
+                ints.pop(var, None)
+                null.pop(var, None)
+                if val is not None and val.k == 'const' and isinstance(val.a[0], int):
+                    ints[var] = val.a[0]
+                elif val is not None and val.k == 'null':
+                    null[var] = True
+            for c in node_calls(n, 'Py_CLEAR'):
+                if c.a[1] and c.a[1][0].k == 'var':
+                    null[c.a[1][0].a[0]] = True
+        return True
 
     def _test(self, e, lab, st, unchecked, none_alias):
         # normalise (x == NULL), (x != NULL), x, (x == Py_None)
@@ -566,10 +635,12 @@ class Balance:
                             continue
                         s = st.get(v)
                         src = self.alias.get(v)
-                        if s == 'owned' and v in self.held:
+                        if s == 'owned' and nm == 'Py_CLEAR':
+                            st[v] = 'null'         # released, and the local is NULL
+                        elif s == 'owned' and v in self.held:
                             st[v] = 'borrowed'     # the container keeps it alive
                         elif s == 'owned':
-                            st[v] = 'released'
+                            st[v] = 'null' if nm == 'Py_CLEAR' else 'released'
                         elif s == 'borrowed' and src and st.get(src) == 'owned':
                             st[src] = 'released'
                             st[v] = 'released'
